@@ -15,10 +15,10 @@ Lemma assoc_app {A} n (l1 l2 : list (Ast.name * A)) :
   Ast.assoc n (l1 ++ l2) = match Ast.assoc n l1 with Some x => Some x | None => Ast.assoc n l2 end.
 Proof. induction l1 as [|[k v] r IH]; simpl; [reflexivity|]. destruct (Ast.name_eqb n k); auto. Qed.
 
-Lemma assoc_tr_env E n :
-  Ast.assoc n (Ast.s_types (tr_env E)) = option_map (fun td => {| Ast.t_req := []; Ast.t_body := tr_tdef td |}) (aget n E).
+Lemma assoc_tr_env ts E n :
+  Ast.assoc n (Ast.s_types (tr_env_g ts E)) = option_map (fun td => {| Ast.t_req := []; Ast.t_body := tr_tdef_g ts td |}) (aget n E).
 Proof.
-  unfold tr_env. cbn [Ast.s_types]. induction E as [|[k td] r IH]; simpl; [reflexivity|].
+  unfold tr_env_g. cbn [Ast.s_types]. induction E as [|[k td] r IH]; simpl; [reflexivity|].
   unfold Ast.name_eqb. destruct (bytes_eqb n k); [reflexivity|exact IH].
 Qed.
 
@@ -83,12 +83,13 @@ Qed.
 (** ** the validateCoercion bridge over any schema that agrees with [tr_env E] on the names of E,
     for closed types (the request schema has two more types, Query and Res_) *)
 Section BridgeS.
+  Variable ts : scalar_kind -> Ast.scalar.
   Variable E : env.
   Variable dt : bytes -> option bytes.
   Variable S : Ast.schema.
-  Hypothesis HS : forall n td, aget n E = Some td -> Ast.raw_body S n = Some (tr_tdef td).
+  Hypothesis HS : forall n td, aget n E = Some td -> Ast.raw_body S n = Some (tr_tdef_g ts td).
   Hypothesis HC : env_closed E = true.
-  Hypothesis HL : leaves_agree E dt.
+  Hypothesis HL : leaves_agree_g ts E dt.
   Notation c04 := (ValidatorModel.coercion ValidatorModel.repaired ValidatorModel.id_order S).
 
   Definition agrees_c (l : lit) : Prop :=
@@ -103,7 +104,7 @@ Section BridgeS.
     destruct (aget n E) as [td|] eqn:Hn; [|discriminate]. pose proof (HS n td Hn) as R.
     destruct l; try (exfalso; congruence);
       cbn [tr_lit ValidatorModel.coercion Ast.is_var Ast.is_null] in *;
-      rewrite R; destruct td as [sk|vals|fields h]; cbn [tr_tdef];
+      rewrite R; destruct td as [sk|vals|fields h]; cbn [tr_tdef_g];
       try (rewrite (X sk eq_refl); destruct (scalar_literal dt sk _); reflexivity);
       try reflexivity.
     cbn [enum_literal]. rewrite mem_map_fst. unfold ahas, of_option. destruct (aget n0 vals); reflexivity.
@@ -125,7 +126,7 @@ Section BridgeS.
     intros Hin IHf. rewrite vc_eq. unfold ahas in Hin.
     cbn [tr_lit ValidatorModel.coercion Ast.is_var Ast.is_null].
     destruct (aget n E) as [td|] eqn:Hn; [|discriminate]. rewrite (HS n td Hn).
-    destruct td as [k|vals|fields h]; cbn [tr_tdef].
+    destruct td as [k|vals|fields h]; cbn [tr_tdef_g].
     - pose proof (HL n k (LObject fs) Hn ltac:(intros; discriminate) ltac:(discriminate)) as X.
       cbn [tr_lit] in X. rewrite X, scalar_literal_object. reflexivity.
     - reflexivity.
@@ -166,27 +167,28 @@ Section BridgeS.
 End BridgeS.
 
 Section Full.
+  Variable ts : scalar_kind -> Ast.scalar.
   Variable E : env.
   Variable dt : bytes -> option bytes.
   Variable sf : bool.
   Variable argdefs : list (name * in_def).
   Hypothesis Hq : ahas n_Query E = false.
   Hypothesis Hr : ahas n_Res E = false.
-  Let S' := tr_request_schema E sf argdefs.
+  Let S' := tr_request_schema_g ts E sf argdefs.
 
   Lemma raw_type_req n :
     Ast.raw_type S' n =
     match aget n E with
-    | Some td => Some {| Ast.t_req := []; Ast.t_body := tr_tdef td |}
-    | None => Ast.assoc n (skipn (length (Ast.s_types (tr_env E))) (Ast.s_types S'))
+    | Some td => Some {| Ast.t_req := []; Ast.t_body := tr_tdef_g ts td |}
+    | None => Ast.assoc n (skipn (length (Ast.s_types (tr_env_g ts E))) (Ast.s_types S'))
     end.
   Proof.
-    unfold Ast.raw_type, S', tr_request_schema. cbn [Ast.s_types]. rewrite assoc_app, assoc_tr_env.
+    unfold Ast.raw_type, S', tr_request_schema_g. cbn [Ast.s_types]. rewrite assoc_app, assoc_tr_env.
     destruct (aget n E); cbn [option_map]; [reflexivity|].
     rewrite skipn_app, Nat.sub_diag, skipn_all. reflexivity.
   Qed.
 
-  Lemma raw_body_in n td : aget n E = Some td -> Ast.raw_body S' n = Some (tr_tdef td).
+  Lemma raw_body_in n td : aget n E = Some td -> Ast.raw_body S' n = Some (tr_tdef_g ts td).
   Proof. intro H. unfold Ast.raw_body. rewrite raw_type_req, H. reflexivity. Qed.
 
   (** outside the environment only Query (an object) and Res_ (the result scalar) exist *)
@@ -195,7 +197,7 @@ Section Full.
     (n = n_Res /\ Ast.raw_body S' n = Some (Ast.TScalar Ast.SInt)).
   Proof.
     intro H. unfold Ast.raw_body. rewrite raw_type_req, H.
-    unfold S', tr_request_schema. cbn [Ast.s_types]. rewrite skipn_app, Nat.sub_diag, skipn_all. cbn [app skipn Ast.assoc].
+    unfold S', tr_request_schema_g. cbn [Ast.s_types]. rewrite skipn_app, Nat.sub_diag, skipn_all. cbn [app skipn Ast.assoc].
     destruct (Ast.name_eqb n n_Query); [right; left; eexists; reflexivity|].
     destruct (Ast.name_eqb n n_Res) eqn:B; [right; right; split; [apply bytes_eqb_eq; exact B|reflexivity]|left; reflexivity].
   Qed.
@@ -371,6 +373,7 @@ Qed.
 Definition dir_names : list name := [ [102; 108; 116]%N; [115; 107; 105; 112]%N; [105; 110; 99; 108; 117; 100; 101]%N ].
 
 Section Site.
+  Variable ts : scalar_kind -> Ast.scalar.
   Variable E : env.
   Variable dt : bytes -> option bytes.
   Variable sf : bool.
@@ -382,11 +385,11 @@ Section Site.
   Hypothesis Hr : ahas n_Res E = false.
   Hypothesis HC : env_closed E = true.
   Hypothesis Hac : forall ad, In ad argdefs -> sty_closed E (in_type (snd ad)) = true.
-  Hypothesis HL : leaves_agree E dt.
+  Hypothesis HL : leaves_agree_g ts E dt.
   Hypothesis Hres : forall def, In def defs -> leaf_name (vd_type def) <> n_Res.
   Hypothesis Hdn : In dname dir_names.
 
-  Let S' := tr_request_schema E sf argdefs.
+  Let S' := tr_request_schema_g ts E sf argdefs.
   Let D := tr_request_doc (if sf then None else Some dname) defs args.
   Let V0 := map (TypeInfoModel.ti_vardef true S' []) (tr_vardefs 0 defs).
   Let D' := tr_argdefs argdefs.
@@ -402,14 +405,14 @@ Section Site.
   Lemma raw_body_query :
     Ast.raw_body S' n_Query = Some (Ast.TObject [ ([102]%N, fdef (if sf then D' else [])); ([103]%N, fdef []) ] []).
   Proof.
-    unfold Ast.raw_body. rewrite (raw_type_req E sf argdefs). unfold ahas in Hq. destruct (aget n_Query E); [discriminate|].
-    unfold tr_request_schema. cbn [Ast.s_types]. rewrite skipn_app, Nat.sub_diag, skipn_all. reflexivity.
+    unfold Ast.raw_body. rewrite (raw_type_req ts E sf argdefs). unfold ahas in Hq. destruct (aget n_Query E); [discriminate|].
+    unfold tr_request_schema_g. cbn [Ast.s_types]. rewrite skipn_app, Nat.sub_diag, skipn_all. reflexivity.
   Qed.
 
   Lemma dir_lookup : Ast.assoc dname (Ast.s_directives S') =
     Some {| Ast.dd_args := if sf then [] else D'; Ast.dd_locs := [Ast.LField] |}.
   Proof.
-    unfold S', tr_request_schema. cbn [Ast.s_directives].
+    unfold S', tr_request_schema_g. cbn [Ast.s_directives].
     destruct Hdn as [<-|[<-|[<-|[]]]]; reflexivity.
   Qed.
 
@@ -527,7 +530,7 @@ Section Site.
       destruct (TypeInfoModel.schema_type S' [] (tr_ty (vd_type d) (pp 2 (10 + i)))) as [x|] eqn:St; [|discriminate].
       apply schema_type_shape in St. subst x. rewrite unwrapped_tr in H2.
       unfold ahas in Ah. destruct (aget (leaf_name (vd_type d)) E) eqn:G; [discriminate|].
-      destruct (raw_body_out E sf argdefs _ G) as [R | [[fs R] | [Eq R]]]; fold S' in R.
+      destruct (raw_body_out ts E sf argdefs _ G) as [R | [[fs R] | [Eq R]]]; fold S' in R.
       - rewrite R in H2. discriminate.
       - rewrite R in H2. discriminate.
       - apply (Hn d (or_introl eq_refl) Eq). }
@@ -550,7 +553,7 @@ Section Site.
     rewrite (ProofsValues.coercion_blind ValidatorModel.id_order S') in Vf.
     destruct (Ast.is_var (tr_lit l)) eqn:Iv.
     - destruct l; try discriminate. rewrite vc_eq. reflexivity.
-    - rewrite <- (bridge_closed E dt S' (fun n td G => raw_body_in E sf argdefs n td G) HC HL l t true C).
+    - rewrite <- (bridge_closed ts E dt S' (fun n td G => raw_body_in ts E sf argdefs n td G) HC HL l t true C).
       destruct (ProofsValues.coercion_total ValidatorModel.id_order S' (tr_lit l) (tr_sty t) true) as [errs Ce].
       rewrite Ce in Vf |- *. cbn [ProofsValues.vr_errs] in Vf. subst errs. reflexivity.
   Qed.
@@ -617,7 +620,7 @@ Section Site.
           destruct (in_vardefs def defs 0%N Hin) as [j Hj].
           apply in_flat_map. exists (TypeInfoModel.ti_vardef true S' [] (tr_vardef j def)). split; [apply in_map; exact Hj|].
           unfold ProofsValues.vardef_vals, TypeInfoModel.ti_vardef, tr_vardef. cbn [Ast.vd_default Ast.vd_type].
-          rewrite Dd. cbn [option_map]. rewrite (schema_type_req E sf argdefs _ _ (Hk def Hin)). right. left. reflexivity.
+          rewrite Dd. cbn [option_map]. rewrite (schema_type_req ts E sf argdefs _ _ (Hk def Hin)). right. left. reflexivity.
     - apply negb_true_iff. exact Dn.
     - apply forallb_forall. exact Hk.
     - (* variable usages *)
@@ -625,7 +628,7 @@ Section Site.
       change (ahas n argdefs = true) in Ha. unfold ahas in Ha. cbn [fst snd].
       destruct (aget n argdefs) as [d|] eqn:G; [|discriminate].
       destruct (annotated_arg n l d Hin G) as [q Hq'].
-      apply (usage_bridge E dt sf argdefs defs Hk l (in_type d) true (arg_loc_default sf d) (ArgOk n l d Hin G)).
+      apply (usage_bridge ts E dt sf argdefs defs Hk l (in_type d) true (arg_loc_default sf d) (ArgOk n l d Hin G)).
       specialize (Bf _ Hq'). unfold Inspect.tree_arg in Bf.
       cbn [Ast.a_name Ast.a_pos Ast.a_value InspectProofs.vnodes ProofsVarsOrder.var_g flat_map ProofsVarsOrder.var_fe app Inspect.name_tree] in Bf.
       rewrite app_nil_r in Bf. unfold TypeInfoModel.ti_value in Bf.
@@ -655,7 +658,24 @@ Section Site.
   Qed.
 End Site.
 
-(** ** C05_C04_accepts_implies_static_ok *)
+(** ** C05_C04_accepts_implies_static_ok, generic in the image of the scalar kinds *)
+Theorem accepts_implies_static_ok_g ts E dt sf dname argdefs defs args :
+  ahas n_Query E = false -> ahas n_Res E = false ->
+  env_closed E = true ->
+  (forall ad, In ad argdefs -> sty_closed E (in_type (snd ad)) = true) ->
+  leaves_agree_g ts E dt ->
+  (forall def, In def defs -> leaf_name (vd_type def) <> n_Res) ->
+  In dname dir_names ->
+  c04_document_accepts_g ts E sf (if sf then None else Some dname) argdefs defs args = true ->
+  static_ok all_fixed E dt sf argdefs defs args = true.
+Proof.
+  intros Hq Hr HC Hac HL Hres Hdn Acc.
+  apply (site_accepts_implies_static_ok ts E dt sf dname argdefs defs args); auto.
+  unfold c04_document_accepts_g in Acc.
+  destruct (ValidatorModel.validate_model_memo _ _ _ _ _) as [[|e es]| |]; try discriminate. reflexivity.
+Qed.
+
+(** the kind-level instance (environments without DateTime / LongInt; other properties build on it) *)
 Theorem accepts_implies_static_ok E dt sf dname argdefs defs args :
   ahas n_Query E = false -> ahas n_Res E = false ->
   env_closed E = true ->
@@ -667,9 +687,7 @@ Theorem accepts_implies_static_ok E dt sf dname argdefs defs args :
   static_ok all_fixed E dt sf argdefs defs args = true.
 Proof.
   intros Hq Hr HC Hac HL Hres Hdn Acc.
-  apply (site_accepts_implies_static_ok E dt sf dname argdefs defs args); auto.
-  unfold c04_document_accepts in Acc.
-  destruct (ValidatorModel.validate_model_memo _ _ _ _ _) as [[|e es]| |]; try discriminate. reflexivity.
+  apply (accepts_implies_static_ok_g tr_scalar E dt sf dname argdefs defs args); auto.
 Qed.
 
 Corollary accepts_implies_static_ok_bridgeable E dt sf dname argdefs defs args :
@@ -684,3 +702,73 @@ Corollary accepts_implies_static_ok_bridgeable E dt sf dname argdefs defs args :
 Proof.
   intros Hq Hr HC Hac HB HF. apply accepts_implies_static_ok; auto. apply leaves_agree_bridgeable; auto.
 Qed.
+
+(** the refined instance: every environment, DateTime and LongInt through C04's SRefined; the only
+    leaf hypothesis left is the Float one *)
+Theorem accepts_implies_static_ok_r E dt sf dname argdefs defs args :
+  ahas n_Query E = false -> ahas n_Res E = false ->
+  env_closed E = true ->
+  (forall ad, In ad argdefs -> sty_closed E (in_type (snd ad)) = true) ->
+  (no_float E = true \/ float_leaves_agree dt) ->
+  (forall def, In def defs -> leaf_name (vd_type def) <> n_Res) ->
+  In dname dir_names ->
+  c04_document_accepts_r dt E sf (if sf then None else Some dname) argdefs defs args = true ->
+  static_ok all_fixed E dt sf argdefs defs args = true.
+Proof.
+  intros Hq Hr HC Hac HF. apply accepts_implies_static_ok_g; auto. apply leaves_agree_r; exact HF.
+Qed.
+
+(** the validateCoercion bridge over the refined environment, closed types *)
+Theorem bridge_closed_r E dt : env_closed E = true -> (no_float E = true \/ float_leaves_agree dt) ->
+  forall l t a, sty_closed E t = true -> c04_accepts_r dt E l t a = validate_coercion E dt l t a.
+Proof.
+  intros HC HF l t a C.
+  pose proof (bridge_closed (tr_scalar_r dt) E dt (tr_env_r dt E)) as B.
+  assert (HS : forall n td, aget n E = Some td -> Ast.raw_body (tr_env_r dt E) n = Some (tr_tdef_g (tr_scalar_r dt) td)).
+  { intros n td G. unfold Ast.raw_body, Ast.raw_type, tr_env_r. rewrite assoc_tr_env, G. reflexivity. }
+  specialize (B HS HC (leaves_agree_r E dt HF) l t a C). unfold c04_accepts_r, c04_accepts_g. exact B.
+Qed.
+
+(** ** with [float_leaves_agree] proved (Val/FloatText.v) no leaf hypothesis is left *)
+From ApiFu Require Import Val.FloatText.
+
+Theorem accepts_implies_static_ok_final E dt sf dname argdefs defs args :
+  ahas n_Query E = false -> ahas n_Res E = false ->
+  env_closed E = true ->
+  (forall ad, In ad argdefs -> sty_closed E (in_type (snd ad)) = true) ->
+  (forall def, In def defs -> leaf_name (vd_type def) <> n_Res) ->
+  In dname dir_names ->
+  c04_document_accepts_r dt E sf (if sf then None else Some dname) argdefs defs args = true ->
+  static_ok all_fixed E dt sf argdefs defs args = true.
+Proof.
+  intros Hq Hr HC Hac. apply accepts_implies_static_ok_r; auto. right. apply float_leaves_agree_holds.
+Qed.
+
+Theorem bridge_closed_final E dt : env_closed E = true ->
+  forall l t a, sty_closed E t = true -> c04_accepts_r dt E l t a = validate_coercion E dt l t a.
+Proof. intros HC. apply bridge_closed_r; auto. right. apply float_leaves_agree_holds. Qed.
+
+Theorem bridge_bridgeable_final E dt : bridgeable E = true ->
+  forall l t a, c04_accepts E l t a = validate_coercion E dt l t a.
+Proof. intros HB. apply bridge_bridgeable; auto. right. apply float_leaves_agree_holds. Qed.
+
+(** the kind-level instances of the two node-level bridges (statements as in round 5) *)
+Lemma usage_bridge_kind E dt sf argdefs defs :
+  (forall def, In def defs -> type_known E (vd_type def) = true) ->
+  forall l t a ld,
+  validate_coercion E dt l t a = true ->
+  ProofsTypeInfoValues.usage_errs true (tr_request_schema E sf argdefs)
+    (map (TypeInfoModel.ti_vardef true (tr_request_schema E sf argdefs) []) (tr_vardefs 0 defs))
+    false (Some (tr_sty t)) ld (tr_lit l) = [] ->
+  usage_ok all_fixed E defs l (Some t) ld = true.
+Proof. pose proof (usage_bridge tr_scalar E dt sf argdefs defs) as H. rewrite tr_request_schema_g_kind in H. exact H. Qed.
+
+Lemma bridge_closed_kind E dt (S : Ast.schema) :
+  (forall n td, aget n E = Some td -> Ast.raw_body S n = Some (tr_tdef td)) ->
+  env_closed E = true -> leaves_agree E dt ->
+  forall l t a, sty_closed E t = true ->
+  match ValidatorModel.coercion ValidatorModel.repaired ValidatorModel.id_order S (tr_lit l) (tr_sty t) a with
+  | ValidatorModel.VR [] => true
+  | _ => false
+  end = validate_coercion E dt l t a.
+Proof. intros HS. apply (bridge_closed tr_scalar E dt S). intros n td G. rewrite tr_tdef_g_kind. apply HS. exact G. Qed.
